@@ -1,3 +1,3 @@
 import MosdnsVerif.Driver.Loop
-import MosdnsVerif.Driver.Handler
-def main : IO Unit := Driver.run Driver.Handler.handle
+import MosdnsVerif.Driver.C15
+def main : IO Unit := Driver.run Driver.C15.handle
